@@ -45,6 +45,22 @@ def payload(i, n):
     return bytes(raw)
 
 
+def _block_len(n):
+    """Length of the HSMS block send_message transmits for a payload of n bytes (14 bytes frame overhead + body)."""
+    if n <= 0xFFFFFF - 16:
+        body = len(e5.header("L", 2)) + len(e5.encode(("A", b"p"))) + len(e5.header("B", n)) + n
+    else:
+        body = n
+    return 14 + body
+
+
+def _n_for_block_len(target):
+    for n in range(max(1, target - 40), target):
+        if _block_len(n) == target:
+            return n
+    return None
+
+
 @st.composite
 def case_strategy(draw, max_size):
     sizes_pool = [1, 2, 100, 1023, 1024, 1025, 4096, 65535, 65536, 65537, 200_000]
@@ -74,6 +90,13 @@ def case_strategy(draw, max_size):
         scale = (sum(sizes) // max(1, per_send)) // 4000 + 1
         sizes = [max(1, x // scale) for x in sizes]
     via = draw(st.sampled_from(["send_data", "send_data", "send_message"]))
+    if via == "send_message" and packet and draw(st.booleans()):
+        # boundary of the packetisation: the encoded block is exactly k packets long (or one byte off)
+        k = draw(st.integers(1, 3))
+        d = draw(st.sampled_from([0, 0, -1, 1]))
+        n = _n_for_block_len(k * packet + d)
+        if n is not None and n <= max_size and (sum(sizes) - sizes[0] + n) // max(1, per_send) <= 4000:
+            sizes[0] = n
     active = draw(st.booleans())
     sched = draw(
         st.one_of(st.just({"seed": 0}), st.builds(lambda s, p: {"seed": s, "switch": p}, st.integers(1, 2**31), st.sampled_from([0.05, 0.5])))
@@ -165,7 +188,7 @@ def run_case(case, observe=None):
 
         total = sum(len(raw) for _, raw in bufs)
         min_accept = max(1, min([case["capacity"], rd["read"]] + [x for x in plan if x > 0] + ([case["packet"]] if case.get("packet") else [])))
-        max_calls = 200 + 4 * (total // min_accept + 1) * (1 + plan.count(0))  # a clean transfer needs about total/min_accept sends
+        max_calls = min(200 + 4 * (total // min_accept + 1) * (1 + plan.count(0)), 300000)  # a clean transfer needs about total/min_accept sends
         prog = {"key": None, "t": sim.now}
 
         def stalled():
@@ -263,6 +286,7 @@ def run_task(name, kw, ctx):
             + (["send_data-raised-after-close"] if obs.get("raised") else [])
             + (["spurious-ewouldblock"] if 0 in case["plan"] else [])
             + (["packetised"] if case.get("packet") and case["via"] == "send_message" and max(case["sizes"]) > case["packet"] else [])
+            + (["block-exact-multiple-of-packet"] if case.get("packet") and case["via"] == "send_message" and any(_block_len(n) % case["packet"] == 0 for n in case["sizes"]) else [])
             + (["random-schedule"] if case["sched"].get("seed") else []),
         )
         return f
